@@ -300,7 +300,7 @@ func TestVerifC08Filter(t *testing.T) {
 		node, custom := c08GenNode(r, env, nodeName)
 		ni := framework.NewNodeInfo()
 		ni.SetNode(node)
-		allocList, err := env.est.EstimateNode(node)
+		allocList, err := env.freshEst().EstimateNode(node.DeepCopy())
 		if err != nil {
 			c.Harness("EstimateNode: %v", err)
 		}
@@ -398,14 +398,8 @@ func TestVerifC08Filter(t *testing.T) {
 			}
 		}
 		isDS := len(incoming.OwnerReferences) > 0
-		incList, err := env.est.EstimatePod(incoming)
-		if err != nil {
-			c.Harness("EstimatePod: %v", err)
-		}
-		incVec := make([]int64, len(env.vec))
-		for i, name := range env.vec {
-			incVec[i] = incList[name]
-		}
+		// the incoming pod's own estimate: a function of the pod and the configuration only (new estimator instance)
+		incVec := env.oracleEstimatePod(incoming)
 		podProd := extension.GetPodPriorityClassWithDefault(incoming) == extension.PriorityProd
 		prof := c08EffectiveProfile(env, custom, podProd)
 		c.Op("incoming: %s estimate=%v prod=%v => profile %s thresholds=%s", c08PodStr(incoming), incVec, podProd, prof.mode, c08MapStr(prof.thresholds))
